@@ -21,11 +21,17 @@ CHECKS = {
     'C04': "Proved: the compiled program has exactly one group per capturing token of the top-level concatenation and none for nested tokens; wildcard groups are "
            "separator-free. Tie: captures() and every capture span (borrowed/owned, indices 0..n+1) vs the model's leftmost-first matcher. Oracle: ordering, disjointness, "
            "separator-freeness, complete components, re-match of each capture by its own sub-expression.",
-    'C05': "Proved: the repaired range conjunction is total up to checked overflow (no unreachable!/expect). Model has explicit Panic outcomes and an exact model of the "
-           "regex nest limit; tie: outcome of every build on a malformed/huge stream vs the model; oracle: no panic outside the known classes (and only where the "
-           "model predicts it), compile errors only for large bounds. Partial: stack exhaustion / memory are outside any Gallina model.",
-    'C06': "Proved: a glob that builds has ordered, non-degenerate bounds and no adjacent boundaries at every depth. Tie: Ok/Err + rule kind vs the model of the repaired "
-           "checker. Oracle: Glob::new(e).is_ok() <=> an independent re-statement of the documented rules over expansions of the parse tree (two named known classes).",
+    'C05': "Proved (all strings / all token trees): the parser model never takes its out-of-fuel exit (C05_parser_never_out_of_fuel: every token consumes a character, "
+           "nesting costs four units of fuel per character), so the model of Glob::new is total; the variance algebra is closed - no unreachable!()/expect site is "
+           "reachable, the depth / size / text / exhaustiveness queries and the rule checker can only fail by a checked-arithmetic overflow "
+           "(C05_queries_panic_only_by_overflow), and a build can only panic there or in the regex compiler (C05_build_panic_sites) - exactly the two known classes. "
+           "Model has explicit Panic outcomes and an exact model of the regex nest limit; tie: outcome of every build on a malformed/huge stream vs the model; "
+           "oracle: no panic outside the known classes (and only where the model predicts it), compile errors only for large bounds. Partial: stack exhaustion / "
+           "memory are outside any Gallina model.",
+    'C06': "Proved: a glob that builds has ordered, non-degenerate bounds and no adjacent boundaries at every node (the level-order enumeration is proved to reach "
+           "every descendant; the fuel of both breadth-first traversals of the rule checker is proved adequate for every tree). Tie: Ok/Err + rule kind vs the model "
+           "of the repaired checker. Oracle: Glob::new(e).is_ok() <=> an independent re-statement of the documented rules over expansions of the parse tree (two named "
+           "known classes).",
     'C07': "Proved (all inputs): the program of a combinator matches exactly the union of its patterns' programs; alternation of programs is union; grouping mode is "
            "irrelevant to the language. Tie: any() tree/program/is_match. Oracle: substitution / unrolling / wrapping families compared on the implementation.",
     'C08': "Proved: the display-suffix arithmetic (dropping the popped bytes leaves the suffix on a character boundary). Tie: every observable of partition() vs the model. "
